@@ -20,7 +20,7 @@ RULE = ('Hypothesis-generated base scripts: a non-decreasing sequence of clock r
         'listener, 1-3 start() calls of the same loop object (each ended by the clock raising Quit after its '
         'iteration budget), plus 0-2 generated faults. Each base script is executed as generated and then once '
         'for EVERY (iteration, processor position, action) with action in {raise Quit, quit_loop(world), '
-        'quit_loop() through desper.default_loop, switch(), raise SwitchWorld (plain, clear_next, clear_current; '
+        'quit_loop() through desper.default_loop, quit_loop(world) whose on_quit listener raises, switch(), raise SwitchWorld (plain, clear_next, clear_current; '
         'targets never loaded before, cached or cleared), raise RuntimeError / KeyboardInterrupt / SystemExit, switch() whose on_switch_in '
         'listener in the entered world raises RuntimeError / Quit while the loop completes the switch}. Oracle = '
         'model of the clock: dt is 0 for the first iteration after each start() and the exact difference of '
@@ -49,7 +49,9 @@ ACTIONS = ['quit', 'quit_loop_w', 'quit_loop_default', 'switch', 'raise_switch',
            # switch(), and the on_switch_in listener of the entered world raises while the loop completes the switch
            'switch_in_listener_raises', 'switch_in_listener_quits',
            # "any other exception": also the ones that do not derive from Exception
-           'error_keyboard_interrupt', 'error_system_exit']
+           'error_keyboard_interrupt', 'error_system_exit',
+           # quit_loop(world), and the on_quit listener of that world raises: "any other exception propagates"
+           'quit_loop_listener_raises']
 
 
 class Boom(RuntimeError):
@@ -57,7 +59,7 @@ class Boom(RuntimeError):
 
 
 def decode_fault(p):
-    return [p % 16, p // 16 % 4, p // 64 % 12, p // 768 % 3]
+    return [p % 16, p // 16 % 4, p // 64 % 13, p // 832 % 3]
 
 
 def strategy():
@@ -72,7 +74,7 @@ def strategy():
         # foreign: the loop under test is not desper.default_loop (that one holds a bystander world), and every
         # other world handle loads a World subclass whose instances are falsy
         'foreign': st.integers(0, 3).map(lambda k: int(k == 3)),
-        'faults': st.lists(worldops.packed(16 * 4 * 12 * 3).map(decode_fault), max_size=2),
+        'faults': st.lists(worldops.packed(16 * 4 * 13 * 3).map(decode_fault), max_size=2),
         # scale: 0, or the number of iterations of the first start() (the clock readings are continued by
         # cycling through the generated gaps); faults are then enumerated at sampled iterations only
         'amp': worldops.size_amp(none=60, sizes=(70, 130, 260, 300, 520))})
@@ -108,6 +110,11 @@ class QuitListener:
         self.run.quit_calls[self.wix] += 1
         if a:
             self.run.viol('on_quit_got_arguments', args=repr(a))
+        if self.run.arm_quit == self.wix:
+            self.run.arm_quit = None
+            self.run.flags['on_quit_listener_raised'] += 1
+            self.run.raised = Boom('injected while saving on quit')
+            raise self.run.raised
 
 
 class EmptyLookingWorld(desper.World):
@@ -170,6 +177,7 @@ class Execution:
         self.flags = collections.Counter()
         self.raised = None
         self.expect_on_quit = collections.Counter()
+        self.arm_quit = None
         self.fired = set()
         self.arm_in = None
 
@@ -236,6 +244,11 @@ class Execution:
         if action == 'quit_loop_w':
             self.end_reason = 'quit'
             self.expect_on_quit[self.cur] += 1
+            desper.quit_loop(proc.world)
+        if action == 'quit_loop_listener_raises':
+            self.end_reason = 'error'
+            self.expect_on_quit[self.cur] += 1
+            self.arm_quit = self.cur
             desper.quit_loop(proc.world)
         if action == 'quit_loop_default':
             self.end_reason = 'quit'
